@@ -77,6 +77,7 @@ DEFAULT_PROFILE: Dict[str, Any] = {
     'imports_last': False,    # every module defines first and imports at the bottom (so a module that is read while half built
                               # - import cycles - has already defined everything it defines itself)
     'back_edge_bottom': False,  # cyclic worlds: the imports that close a cycle sit at the bottom of the module, after every definition
+    'pkg_docformat': 0.0,     # probability that the root package sets __docformat__ = 'restructuredtext' (fields below it are then reST)
     'nested_refs': 0.0,       # probability that references to nested classes (`Outer.Inner`, `alias.Outer.Inner`) are offered
     'hide_overrides': 0.0,    # probability per class with an overriding member of a privacy rule hiding that member (or the class)
     'docassign_modules': False,  # __doc__ assignments may also target a module through its alias
@@ -1049,6 +1050,18 @@ class _Gen:
             self.zope_knob(self.rng.sub('zope'), order)
         if self.p['cyclic']:
             self.add_back_edges(order)
+        if self.p.get('pkg_docformat', 0) and self.rng.sub('pkgdocformat?').chance(self.p['pkg_docformat']):
+            # the root package declares its docformat in __init__; the modules below inherit it, and the fields in their
+            # class docstrings are written in that format
+            root = next(iter(self.modules))
+            if self.modules[root]['pkg']:
+                self.modules[root]['docformat'] = 'restructuredtext'
+                for mn, mm in self.modules.items():
+                    if mn == root or mn.startswith(root + '.'):
+                        for _, st in iter_stmts(mm['body']):
+                            if st['k'] == 'class' and st.get('fields'):
+                                st['fields_style'] = 'rst'
+                self.exotic.add('pkg_docformat')
         if self.p.get('submodule_clash', 0) and self.rng.sub('subclash?').chance(self.p['submodule_clash']):
             self.submodule_clash(self.rng.sub('subclash'))
         truth = {
@@ -1212,9 +1225,12 @@ def render_stmt(st: Dict[str, Any], indent: str, out: List[str], in_class: bool 
         out.append(f'{indent}class {st["name"]}({bases}):\n' if bases else f'{indent}class {st["name"]}:\n')
         extra = ''
         for f in st.get('fields', []):
-            extra += f'\n{indent}    @{f["tag"]} {f["name"]}: Marker M{f["id"]}M.'
+            lead = ':' if st.get('fields_style') == 'rst' else '@'
+            extra += f'\n{indent}    {lead}{f["tag"]} {f["name"]}: Marker M{f["id"]}M.'
         if extra:
             extra += f'\n{indent}    '
+            if st.get('fields_style') == 'rst':
+                extra = '\n' + extra      # a reST field list needs a blank line after the paragraph
         if not st.get('nodoc'):
             out.append(_doc(st['id'], extra + st.get('docextra', ''), indent + '    '))
         if py:
